@@ -6,6 +6,7 @@
  * code that runs is the code of $REPO.  Link with HA_WRAP_FLAGS. */
 #include "hcommon.h"
 #include "halloc.h"
+#include <sys/mman.h>
 #include "cstl/memory.h"
 #include "cstl/array.h"
 #include "../src/memory.c"
@@ -21,7 +22,12 @@ union slot {
     struct cstl_guarded_ptr g;  /* kind G: the guarded pointer used directly */
 };
 
-static union slot pool[MAXO];
+static union slot pool_store[MAXO];
+/* Where object i lives.  Normally a slot of the array above; with the header `farslots 1` object i sits in a page of its
+ * own at FAR_BASE + i * 2^32, so that any two objects are a multiple of 4 GiB apart (a guard that compares truncated
+ * addresses, or their truncated difference, cannot tell a stray copy from its original there). */
+static union slot * slotp[MAXO];
+#define FAR_BASE ((uintptr_t)0x200000000000ULL)
 static char kind[MAXO];
 static int nobj;
 static void * extb[MAXX];
@@ -74,16 +80,18 @@ static int cbprobe = -1;
  * reference, typically to its own allocation, and drops it when it is destroyed).  Not represented in the Coq
  * model (its callback is a logger): such cases are judged by the reference oracle and the sanitizers only. */
 static int cbwreset = -1;
+static int relnull;
+static void junk_clr(void * p, void * q) { (void)p; (void)q; }
 static cstl_shared_ptr_t probe_sp;
 static void clr_log(void * p, void * priv)
 {
     HA_EV(" ; 8 %d %d", blk(p), (int)(intptr_t)priv);
     if (cbprobe >= 0 && p != NULL) {
-        cstl_weak_ptr_lock(&pool[cbprobe].s, &probe_sp);
+        cstl_weak_ptr_lock(&(*slotp[cbprobe]).s, &probe_sp);
         if (cstl_shared_ptr_get(&probe_sp) == p) HA_EV(" ; 9 %d", blk(p));
         cstl_shared_ptr_reset(&probe_sp);
     }
-    if (cbwreset >= 0) cstl_weak_ptr_reset(&pool[cbwreset].s);
+    if (cbwreset >= 0) cstl_weak_ptr_reset(&(*slotp[cbwreset]).s);
 }
 
 static int ext_index(const void * p)
@@ -124,10 +132,10 @@ static int print_loc(char * out, const void * p, size_t esz)
 static struct cstl_guarded_ptr * gp_of(int i)
 {
     switch (kind[i]) {
-    case 'U': return &pool[i].u.gp;
-    case 'A': return &pool[i].a.ptr.data;
-    case 'G': return &pool[i].g;
-    default: return &pool[i].s.data;
+    case 'U': return &(*slotp[i]).u.gp;
+    case 'A': return &(*slotp[i]).a.ptr.data;
+    case 'G': return &(*slotp[i]).g;
+    default: return &(*slotp[i]).s.data;
     }
 }
 
@@ -153,13 +161,13 @@ static void dump(void)
         const struct cstl_guarded_ptr * g = gp_of(i);
         int p = blk(g->ptr);
         printf(" | %c%d self=", kind[i], i);
-        for (j = 0; j < nobj; j++) if (g->self == (void *)&pool[j]) break;
+        for (j = 0; j < nobj; j++) if (g->self == (void *)&(*slotp[j])) break;
         if (j < nobj) printf("%d", j); else printf("?");
         if (kind[i] == 'G') { printf(" p=%ld", gptr_val(g->ptr)); continue; }
         printf(" p=%d", p);
         if (kind[i] == 'U') {
-            printf(" c=%d", pool[i].u.clr.func == clr_log ? (int)(intptr_t)pool[i].u.clr.priv
-                   : pool[i].u.clr.func == NULL ? -1 : -3);
+            printf(" c=%d", (*slotp[i]).u.clr.func == clr_log ? (int)(intptr_t)(*slotp[i]).u.clr.priv
+                   : (*slotp[i]).u.clr.func == NULL ? -1 : -3);
             continue;
         }
         if (p >= 0 && ha_block_size(p) >= sizeof(struct cstl_shared_ptr_data)) {
@@ -173,7 +181,7 @@ static void dump(void)
         }
         if (kind[i] == 'A') {
             const struct cstl_raw_array * ra = raw_of(i);
-            printf(" off=%zu len=%zu", pool[i].a.off, pool[i].a.len);
+            printf(" off=%zu len=%zu", (*slotp[i]).a.off, (*slotp[i]).a.len);
             if (ra) {
                 printf(" sz=%zu nm=%zu buf=", ra->sz, ra->nm);
                 if (ra->buf == (void *)(ra + 1)) printf("I");
@@ -187,21 +195,21 @@ static void dump(void)
 static void obj_init(int i)
 {
     switch (kind[i]) {
-    case 'U': cstl_unique_ptr_init(&pool[i].u); break;
-    case 'S': cstl_shared_ptr_init(&pool[i].s); break;
-    case 'W': cstl_weak_ptr_init(&pool[i].s); break;
-    case 'A': cstl_array_init(&pool[i].a); break;
-    case 'G': cstl_guarded_ptr_init(&pool[i].g); break;
+    case 'U': cstl_unique_ptr_init(&(*slotp[i]).u); break;
+    case 'S': cstl_shared_ptr_init(&(*slotp[i]).s); break;
+    case 'W': cstl_weak_ptr_init(&(*slotp[i]).s); break;
+    case 'A': cstl_array_init(&(*slotp[i]).a); break;
+    case 'G': cstl_guarded_ptr_init(&(*slotp[i]).g); break;
     }
 }
 static void obj_reset(int i)
 {
     switch (kind[i]) {
-    case 'U': cstl_unique_ptr_reset(&pool[i].u); break;
-    case 'S': cstl_shared_ptr_reset(&pool[i].s); break;
-    case 'W': cstl_weak_ptr_reset(&pool[i].s); break;
-    case 'A': cstl_array_reset(&pool[i].a); break;
-    case 'G': cstl_guarded_ptr_init(&pool[i].g); break;   /* owns nothing */
+    case 'U': cstl_unique_ptr_reset(&(*slotp[i]).u); break;
+    case 'S': cstl_shared_ptr_reset(&(*slotp[i]).s); break;
+    case 'W': cstl_weak_ptr_reset(&(*slotp[i]).s); break;
+    case 'A': cstl_array_reset(&(*slotp[i]).a); break;
+    case 'G': cstl_guarded_ptr_init(&(*slotp[i]).g); break;   /* owns nothing */
     }
 }
 
@@ -216,7 +224,8 @@ static void run_case(const struct h_case * c)
     int i, k, started = 0;
 
     ha_reset();
-    nobj = 0; next_ = 0; cbprobe = -1; cbwreset = -1; constapi = 0; cstl_shared_ptr_init(&probe_sp);
+    nobj = 0; next_ = 0; cbprobe = -1; cbwreset = -1; constapi = 0; relnull = 0; cstl_shared_ptr_init(&probe_sp);
+    for (i = 0; i < MAXO; i++) slotp[i] = &pool_store[i];
     for (i = 0; i < c->nlines; i++) {
         const struct h_line * l = &c->lines[i];
         int nw = l->nw, a, b, marks[H_MAXW], nmarks = 0;
@@ -244,7 +253,17 @@ static void run_case(const struct h_case * c)
         if (h_weq(l, 0, "failfrom")) { ha_fail_from = (long)h_int(l, 1); continue; }
         if (h_weq(l, 0, "cbprobe")) { cbprobe = (int)h_int(l, 1); continue; }
         if (h_weq(l, 0, "cbwreset")) { cbwreset = (int)h_int(l, 1); continue; }
+        if (h_weq(l, 0, "relnull")) { relnull = (int)h_int(l, 1); continue; }
         if (h_weq(l, 0, "constapi")) { constapi = (int)h_int(l, 1); continue; }
+        if (h_weq(l, 0, "farslots")) {
+            if (h_int(l, 1)) for (k = 0; k < MAXO; k++) {
+                void * m = mmap((void *)(FAR_BASE + ((uintptr_t)k << 32)), 4096, PROT_READ | PROT_WRITE,
+                                MAP_PRIVATE | MAP_ANONYMOUS | MAP_FIXED_NOREPLACE, -1, 0);
+                if (m != (void *)(FAR_BASE + ((uintptr_t)k << 32))) { printf("precond\n"); return; }   /* no room there */
+                slotp[k] = m;
+            }
+            continue;
+        }
         if (!started) {
             for (k = 0; k < nobj; k++) obj_init(k);
             started = 1;
@@ -267,20 +286,21 @@ static void run_case(const struct h_case * c)
         if (a < 0 || a >= nobj) { printf("precond\n"); return; }
 
         ha_active = 1;
-        if (h_weq(l, 0, "uinit")) { cstl_unique_ptr_init(&pool[a].u); ha_active = 0; printf("ok "); }
+        if (h_weq(l, 0, "uinit")) { cstl_unique_ptr_init(&(*slotp[a]).u); ha_active = 0; printf("ok "); }
         else if (h_weq(l, 0, "ualloc")) {
             long cb = (long)h_int(l, 3);
-            cstl_unique_ptr_alloc(&pool[a].u, (size_t)x2, cb >= 0 ? clr_log : NULL,
+            cstl_unique_ptr_alloc(&(*slotp[a]).u, (size_t)x2, cb >= 0 ? clr_log : NULL,
                                   cb >= 0 ? (void *)(intptr_t)cb : NULL);
             ha_active = 0; printf("ok ");
         }
         else if (h_weq(l, 0, "uget")) {
-            const void * p = constapi ? cstl_unique_ptr_get_const(&pool[a].u) : cstl_unique_ptr_get(&pool[a].u);
+            const void * p = constapi ? cstl_unique_ptr_get_const(&(*slotp[a]).u) : cstl_unique_ptr_get(&(*slotp[a]).u);
             ha_active = 0; printf("ok %d", blk(p));
         }
         else if (h_weq(l, 0, "urelease")) {
-            cstl_xtor_func_t * f = NULL; void * priv = NULL;
-            void * p = cstl_unique_ptr_release(&pool[a].u, &f, &priv);
+            /* both outputs must be overwritten, also when the pointer manages nothing */
+            cstl_xtor_func_t * f = junk_clr; void * priv = (void *)&pool_store;
+            void * p = cstl_unique_ptr_release(&(*slotp[a]).u, &f, &priv);
             int pb = blk(p);
             free(p);                      /* the caller owns it now */
             ha_active = 0;
@@ -288,92 +308,99 @@ static void run_case(const struct h_case * c)
         }
         else if (h_weq(l, 0, "uswap")) {
             if (b < 0 || b >= nobj) { printf("precond\n"); return; }
-            cstl_unique_ptr_swap(&pool[a].u, &pool[b].u); ha_active = 0; printf("ok ");
+            cstl_unique_ptr_swap(&(*slotp[a]).u, &(*slotp[b]).u); ha_active = 0; printf("ok ");
         }
-        else if (h_weq(l, 0, "ureset")) { cstl_unique_ptr_reset(&pool[a].u); ha_active = 0; printf("ok "); }
-        else if (h_weq(l, 0, "sinit")) { cstl_shared_ptr_init(&pool[a].s); ha_active = 0; printf("ok "); }
+        else if (h_weq(l, 0, "ureset")) { cstl_unique_ptr_reset(&(*slotp[a]).u); ha_active = 0; printf("ok "); }
+        else if (h_weq(l, 0, "sinit")) { cstl_shared_ptr_init(&(*slotp[a]).s); ha_active = 0; printf("ok "); }
         else if (h_weq(l, 0, "salloc")) {
-            cstl_shared_ptr_alloc(&pool[a].s, (size_t)x2, h_int(l, 3) ? clr_log : NULL);
+            cstl_shared_ptr_alloc(&(*slotp[a]).s, (size_t)x2, h_int(l, 3) ? clr_log : NULL);
             ha_active = 0; printf("ok ");
         }
         else if (h_weq(l, 0, "sget")) {
-            const void * p = constapi ? cstl_shared_ptr_get_const(&pool[a].s) : cstl_shared_ptr_get(&pool[a].s);
+            const void * p = constapi ? cstl_shared_ptr_get_const(&(*slotp[a]).s) : cstl_shared_ptr_get(&(*slotp[a]).s);
             ha_active = 0; printf("ok %d", blk(p));
         }
         else if (h_weq(l, 0, "sunique")) {
-            int u = cstl_shared_ptr_unique(&pool[a].s);
+            int u = cstl_shared_ptr_unique(&(*slotp[a]).s);
             ha_active = 0; printf("ok %d", u);
         }
         else if (h_weq(l, 0, "sshare")) {
             if (b < 0 || b >= nobj) { printf("precond\n"); return; }
-            cstl_shared_ptr_share(&pool[a].s, &pool[b].s); ha_active = 0; printf("ok ");
+            cstl_shared_ptr_share(&(*slotp[a]).s, &(*slotp[b]).s); ha_active = 0; printf("ok ");
         }
         else if (h_weq(l, 0, "sswap")) {
             if (b < 0 || b >= nobj) { printf("precond\n"); return; }
-            cstl_shared_ptr_swap(&pool[a].s, &pool[b].s); ha_active = 0; printf("ok ");
+            cstl_shared_ptr_swap(&(*slotp[a]).s, &(*slotp[b]).s); ha_active = 0; printf("ok ");
         }
-        else if (h_weq(l, 0, "sreset")) { cstl_shared_ptr_reset(&pool[a].s); ha_active = 0; printf("ok "); }
-        else if (h_weq(l, 0, "winit")) { cstl_weak_ptr_init(&pool[a].s); ha_active = 0; printf("ok "); }
+        else if (h_weq(l, 0, "sreset")) { cstl_shared_ptr_reset(&(*slotp[a]).s); ha_active = 0; printf("ok "); }
+        else if (h_weq(l, 0, "winit")) { cstl_weak_ptr_init(&(*slotp[a]).s); ha_active = 0; printf("ok "); }
         else if (h_weq(l, 0, "wfrom")) {
             if (b < 0 || b >= nobj) { printf("precond\n"); return; }
-            cstl_weak_ptr_from(&pool[a].s, &pool[b].s); ha_active = 0; printf("ok ");
+            cstl_weak_ptr_from(&(*slotp[a]).s, &(*slotp[b]).s); ha_active = 0; printf("ok ");
         }
         else if (h_weq(l, 0, "wlock")) {
             if (b < 0 || b >= nobj) { printf("precond\n"); return; }
-            cstl_weak_ptr_lock(&pool[a].s, &pool[b].s); ha_active = 0; printf("ok ");
+            cstl_weak_ptr_lock(&(*slotp[a]).s, &(*slotp[b]).s); ha_active = 0; printf("ok ");
         }
         else if (h_weq(l, 0, "wswap")) {
             if (b < 0 || b >= nobj) { printf("precond\n"); return; }
-            cstl_weak_ptr_swap(&pool[a].s, &pool[b].s); ha_active = 0; printf("ok ");
+            cstl_weak_ptr_swap(&(*slotp[a]).s, &(*slotp[b]).s); ha_active = 0; printf("ok ");
         }
-        else if (h_weq(l, 0, "wreset")) { cstl_weak_ptr_reset(&pool[a].s); ha_active = 0; printf("ok "); }
+        else if (h_weq(l, 0, "wreset")) { cstl_weak_ptr_reset(&(*slotp[a]).s); ha_active = 0; printf("ok "); }
         else if (h_weq(l, 0, "straycopy")) {
             ha_active = 0;
             if (b < 0 || b >= nobj) { printf("precond\n"); return; }
-            memcpy(&pool[b], &pool[a], kind_size(kind[a]));
+            memcpy(&(*slotp[b]), &(*slotp[a]), kind_size(kind[a]));
             printf("ok ");
         }
-        else if (h_weq(l, 0, "ginit")) { cstl_guarded_ptr_init(&pool[a].g); ha_active = 0; printf("ok "); }
-        else if (h_weq(l, 0, "gset")) { cstl_guarded_ptr_set(&pool[a].g, gval_ptr(x2)); ha_active = 0; printf("ok "); }
+        else if (h_weq(l, 0, "ginit")) { cstl_guarded_ptr_init(&(*slotp[a]).g); ha_active = 0; printf("ok "); }
+        else if (h_weq(l, 0, "gset")) { cstl_guarded_ptr_set(&(*slotp[a]).g, gval_ptr(x2)); ha_active = 0; printf("ok "); }
         else if (h_weq(l, 0, "gget")) {
-            const void * p = constapi ? cstl_guarded_ptr_get_const(&pool[a].g) : cstl_guarded_ptr_get(&pool[a].g);
+            const void * p = constapi ? cstl_guarded_ptr_get_const(&(*slotp[a]).g) : cstl_guarded_ptr_get(&(*slotp[a]).g);
             ha_active = 0; printf("ok %ld", gptr_val(p));
         }
         else if (h_weq(l, 0, "ggetc")) {
-            const void * p = cstl_guarded_ptr_get_const(&pool[a].g);
+            const void * p = cstl_guarded_ptr_get_const(&(*slotp[a]).g);
             ha_active = 0; printf("ok %ld", gptr_val(p));
         }
         else if (h_weq(l, 0, "gcopy")) {          /* gcopy dst src */
             if (b < 0 || b >= nobj) { printf("precond\n"); return; }
-            cstl_guarded_ptr_copy(&pool[a].g, &pool[b].g); ha_active = 0; printf("ok ");
+            cstl_guarded_ptr_copy(&(*slotp[a]).g, &(*slotp[b]).g); ha_active = 0; printf("ok ");
         }
         else if (h_weq(l, 0, "gswap")) {
             if (b < 0 || b >= nobj) { printf("precond\n"); return; }
-            cstl_guarded_ptr_swap(&pool[a].g, &pool[b].g); ha_active = 0; printf("ok ");
+            cstl_guarded_ptr_swap(&(*slotp[a]).g, &(*slotp[b]).g); ha_active = 0; printf("ok ");
         }
-        else if (h_weq(l, 0, "ainit")) { cstl_array_init(&pool[a].a); ha_active = 0; printf("ok "); }
+        else if (h_weq(l, 0, "ainit")) { cstl_array_init(&(*slotp[a]).a); ha_active = 0; printf("ok "); }
         else if (h_weq(l, 0, "aalloc")) {
-            cstl_array_alloc(&pool[a].a, (size_t)x2, (size_t)x3); ha_active = 0; printf("ok ");
+            cstl_array_alloc(&(*slotp[a]).a, (size_t)x2, (size_t)x3); ha_active = 0; printf("ok ");
         }
         else if (h_weq(l, 0, "aset")) {
             if (b < 0 || b >= next_) { printf("precond\n"); return; }
-            cstl_array_set(&pool[a].a, extb[b], (size_t)x3, (size_t)x4); ha_active = 0; printf("ok ");
+            cstl_array_set(&(*slotp[a]).a, extb[b], (size_t)x3, (size_t)x4); ha_active = 0; printf("ok ");
         }
         else if (h_weq(l, 0, "arelease")) {
-            void * p = (void *)&pool;     /* must be overwritten */
-            cstl_array_release(&pool[a].a, &p);
+            void * p = (void *)&pool_store;     /* must be overwritten */
+            if (relnull) {
+                /* header `relnull 1`: the out-parameter is NULL ("may be NULL"); what would have been handed back is
+                 * what the object referred to before, if it lets go of it */
+                const void * before = cstl_array_data_const(&(*slotp[a]).a);
+                cstl_array_release(&(*slotp[a]).a, NULL);
+                p = (before != NULL && cstl_array_data_const(&(*slotp[a]).a) == NULL) ? (void *)before : NULL;
+            } else
+            cstl_array_release(&(*slotp[a]).a, &p);
             ha_active = 0;
             printf("ok %d", p ? (ext_index(p) >= 0 ? ext_index(p) : -2) : -1);
         }
         else if (h_weq(l, 0, "adata")) {
-            const void * p = constapi ? cstl_array_data_const(&pool[a].a) : cstl_array_data(&pool[a].a);
+            const void * p = constapi ? cstl_array_data_const(&(*slotp[a]).a) : cstl_array_data(&(*slotp[a]).a);
             ha_active = 0;
             if (!print_loc(locbuf, p, 0)) { fprintf(stderr, "adata: address outside every live buffer\n"); die_fault(); }
             printf("ok%s", locbuf);
         }
         else if (h_weq(l, 0, "aat")) {
-            void * p = constapi ? (void *)cstl_array_at_const(&pool[a].a, (size_t)x2)
-                                : cstl_array_at(&pool[a].a, (size_t)x2);
+            void * p = constapi ? (void *)cstl_array_at_const(&(*slotp[a]).a, (size_t)x2)
+                                : cstl_array_at(&(*slotp[a]).a, (size_t)x2);
             const struct cstl_raw_array * ra = raw_of(a);
             size_t esz = ra ? ra->sz : 1;
             ha_active = 0;
@@ -384,19 +411,19 @@ static void run_case(const struct h_case * c)
             if (esz > 0 && esz <= 4096) memset(p, 0x5a, esz);
         }
         else if (h_weq(l, 0, "asize")) {
-            size_t n = cstl_array_size(&pool[a].a);
+            size_t n = cstl_array_size(&(*slotp[a]).a);
             ha_active = 0; printf("ok %zu", n);
         }
         else if (h_weq(l, 0, "aslice")) {
             int t = (int)h_int(l, 4);
             if (t < 0 || t >= nobj) { printf("precond\n"); return; }
-            cstl_array_slice(&pool[a].a, (size_t)x2, (size_t)x3, &pool[t].a); ha_active = 0; printf("ok ");
+            cstl_array_slice(&(*slotp[a]).a, (size_t)x2, (size_t)x3, &(*slotp[t]).a); ha_active = 0; printf("ok ");
         }
         else if (h_weq(l, 0, "aunslice")) {
             if (b < 0 || b >= nobj) { printf("precond\n"); return; }
-            cstl_array_unslice(&pool[a].a, &pool[b].a); ha_active = 0; printf("ok ");
+            cstl_array_unslice(&(*slotp[a]).a, &(*slotp[b]).a); ha_active = 0; printf("ok ");
         }
-        else if (h_weq(l, 0, "areset")) { cstl_array_reset(&pool[a].a); ha_active = 0; printf("ok "); }
+        else if (h_weq(l, 0, "areset")) { cstl_array_reset(&(*slotp[a]).a); ha_active = 0; printf("ok "); }
         else { ha_active = 0; printf("badop %s\n", l->w[0]); return; }
 
         for (k = 0; k < nmarks; k++) ha_fail[marks[k]] = 0;
@@ -408,7 +435,7 @@ static void run_case(const struct h_case * c)
     /* reset every object (stray copies can only be re-initialised) */
     ha_active = 1;
     for (k = 0; k < nobj; k++) {
-        if (gp_of(k)->self != (void *)&pool[k]) obj_init(k);
+        if (gp_of(k)->self != (void *)&(*slotp[k])) obj_init(k);
         else obj_reset(k);
     }
     ha_active = 0;
